@@ -172,14 +172,14 @@ theorem mem_matchIndices (name pat : Str) (i : Nat) (h : i ∈ matchIndices name
 to an ASCII string of the same length (true of every ASCII entry under Rust's `to_uppercase`, see
 `acronymOk_of_ascii`) -/
 def acronymOk (U : UnicodeOps) (a : Str) : Bool :=
-  let pat := Rename.toPascal a
+  let pat := Rename.toPascal U a
   asciiStr pat && asciiStr (U.upperStr pat) && (U.upperStr pat).length == pat.length
 
 /-- the condition on the Go configuration -/
 def cfgOk (U : UnicodeOps) (cfg : Cfg) : Bool := cfg.uppercaseAcronyms.all (acronymOk U)
 
 theorem acronymOk_lay {U : UnicodeOps} {a : Str} (h : acronymOk U a = true) :
-    asciiStr (Rename.toPascal a) = true ∧ lay (U.upperStr (Rename.toPascal a)) = lay (Rename.toPascal a) := by
+    asciiStr (Rename.toPascal U a) = true ∧ lay (U.upperStr (Rename.toPascal U a)) = lay (Rename.toPascal U a) := by
   simp only [acronymOk, Bool.and_eq_true, beq_iff_eq] at h
   exact ⟨h.1.1, by rw [lay_of_ascii h.1.1, lay_of_ascii h.1.2, h.2]⟩
 
@@ -276,7 +276,7 @@ theorem upperStr_ascii {U : UnicodeOps} (hU : U.AsciiCorrect) : ∀ s : Str, asc
 /-- with Rust's case mapping on ASCII (`AsciiCorrect`), every ASCII `uppercase_acronyms` entry is fine -/
 theorem acronymOk_of_ascii {U : UnicodeOps} (hU : U.AsciiCorrect) {a : Str} (h : asciiStr a = true) :
     acronymOk U a = true := by
-  have hp : asciiStr (Rename.toPascal a) = true := pascalGo_ascii _ _ _ h
+  have hp : asciiStr (Rename.toPascal U a) = true := pascalGo_ascii _ _ _ h
   obtain ⟨h1, h2⟩ := upperStr_ascii hU _ hp
   simp [acronymOk, hp, h1, h2]
 
@@ -451,13 +451,13 @@ theorem writeEnum_np (e : RustEnum) (cs : List Str) (st : Imports) (h : enumUnit
   · np_auto
 
 omit hc in
-theorem constFacts_np (c : RustConst) (st : Imports) : NP (constFacts cfg c st) := by
+theorem constFacts_np (c : RustConst) (st : Imports) : NP (constFacts U cfg c st) := by
   have := formatType_np cfg
   unfold constFacts; np_auto
 
 omit hc in
-theorem writeConst_np (c : RustConst) (st : Imports) : NP (writeConst cfg c st) := by
-  have := constFacts_np cfg c
+theorem writeConst_np (c : RustConst) (st : Imports) : NP (writeConst U cfg c st) := by
+  have := constFacts_np U cfg c
   unfold writeConst; np_auto
 
 theorem writeItem_np (cs : List Str) (it : RustItem) (st : Imports) (h : itemUnitOk it = true) :
@@ -466,7 +466,7 @@ theorem writeItem_np (cs : List Str) (it : RustItem) (st : Imports) (h : itemUni
   | enum e => exact writeEnum_np U cfg hc e cs st h
   | struct s => exact writeStruct_np U cfg hc s st
   | alias a => exact writeAlias_np U cfg hc a st
-  | const c => exact writeConst_np cfg c st
+  | const c => exact writeConst_np U cfg c st
 
 theorem writeItems_np (cs : List Str) : ∀ (its : List RustItem) (st : Imports),
     (∀ it ∈ its, itemUnitOk it = true) → NP (writeItems U cfg cs its st)
